@@ -2,7 +2,7 @@
  * C18 - sorting, copies, medians, quartiles, histograms, correlograms of
  * datasets and time series respect their definitions.
  *
- * options: mode=small|perm|big|ts  maxlen=N
+ * options: mode=small|perm|big|ts|free  maxlen=N
  *
  * cmb_timeseries.c is included textually (it is on the include path) so that the
  * static time-weighted histogram fill can be called; the harness therefore
@@ -162,9 +162,17 @@ static void check_dataset(void)
              cmb_dataset_min(&ds), cmb_dataset_max(&ds), n, lo, hi);
         goto out;
     }
-    /* copy is exact and independent */
-    {
+    /* copy is exact and independent, whatever the target held before: nothing, a few samples (an array smaller
+     * than a grown source's), or more samples than the source */
+    for (int life = 0; life < 3; life++) {
         struct cmb_dataset cp = { 0 };
+        if (life > 0) {
+            cmb_dataset_initialize(&cp);
+            const int prior = (life == 1) ? 3 : 2 * n + 5;
+            for (int i = 0; i < prior; i++) {
+                cmb_dataset_add(&cp, 1000.0 + i);
+            }
+        }
         cmb_dataset_copy(&cp, &ds);
         if (cp.count != ds.count || memcmp(cp.xa, ds.xa, (size_t)n * sizeof(double)) != 0 || cp.min != lo || cp.max != hi) {
             FAIL("copy-differs", "copy of %d samples differs from the original", n);
@@ -367,9 +375,16 @@ static void check_timeseries(void)
             goto out;
         }
     }
-    /* copy: exact, and the copy can be extended */
-    {
+    /* copy: exact, and the copy can be extended, whatever the target held before */
+    for (int life = 0; life < 3; life++) {
         struct cmb_timeseries cp = { 0 };
+        if (life > 0) {
+            cmb_timeseries_initialize(&cp);
+            const int prior = (life == 1) ? 3 : 2 * n + 5;
+            for (int i = 0; i < prior; i++) {
+                cmb_timeseries_add(&cp, 1000.0 + i, (double)i);
+            }
+        }
         cmb_timeseries_copy(&cp, &ts);
         bool same = cp.ds.count == (uint64_t)n;
         for (int i = 0; same && i < n; i++) {
@@ -620,8 +635,107 @@ out:
     }
 }
 
+/* ------------------------------------------------------------------ free-running threads (for ThreadSanitizer)
+ * Trial functions compute their statistics on the worker threads of cimba_run_experiment, each on its own objects:
+ * every query below must give a thread exactly what it gives when called alone. */
+#include <pthread.h>
+#define FR_THREADS 3
+static char *fr_solo[FR_THREADS];
+static int fr_bad[FR_THREADS];
+
+static char *fr_queries(int k)
+{
+    char *buf = NULL;
+    size_t blen = 0;
+    FILE *fp = open_memstream(&buf, &blen);
+    const int cnt = 37 + 290 * k;        /* different lengths on different threads */
+    struct cmb_timeseries ts;
+    struct cmb_dataset ds;
+    cmb_timeseries_initialize(&ts);
+    cmb_dataset_initialize(&ds);
+    double t = 0;
+    for (int i = 0; i < cnt; i++) {
+        const double x = (double)((i * 7 + 3 * k) % 11) + 0.25 * (i % 3);
+        cmb_timeseries_add(&ts, x, t);
+        cmb_dataset_add(&ds, x);
+        t += (i == cnt / (k + 2)) ? 400.0 : (double)(i % 4);
+    }
+    cmb_timeseries_finalize(&ts, t + 1);
+    fprintf(fp, "dmed %.17g tmed %.17g\n", cmb_dataset_median(&ds), cmb_timeseries_median(&ts));
+    cmb_dataset_fivenum_print(&ds, fp, true);
+    cmb_timeseries_fivenum_print(&ts, fp, true);
+    cmb_dataset_histogram_print(&ds, fp, 7, 0.0, 0.0);
+    cmb_timeseries_histogram_print(&ts, fp, 7, 0.0, 0.0);
+    double acf[9], pacf[9];
+    cmb_dataset_ACF(&ds, 8, acf);
+    cmb_dataset_PACF(&ds, 8, pacf, acf);
+    for (int i = 0; i <= 8; i++) {
+        fprintf(fp, "%.17g %.17g\n", acf[i], i ? pacf[i] : 0.0);
+    }
+    cmb_dataset_correlogram_print(&ds, fp, 8, acf);
+    struct cmb_wtdsummary ws;
+    struct cmb_datasummary su;
+    cmb_timeseries_summarize(&ts, &ws);
+    cmb_dataset_summarize(&ds, &su);
+    cmb_wtdsummary_print(&ws, fp, true);
+    cmb_datasummary_print(&su, fp, true);
+    struct cmb_timeseries cp = { 0 };
+    cmb_timeseries_copy(&cp, &ts);
+    cmb_timeseries_sort_x(&cp);
+    fprintf(fp, "sorted tmed %.17g\n", cmb_timeseries_median(&cp));
+    cmb_timeseries_sort_t(&cp);
+    cmb_dataset_sort(&ds);
+    fprintf(fp, "sorted dmed %.17g first %.17g\n", cmb_dataset_median(&ds), ds.xa[0]);
+    cmb_timeseries_terminate(&cp);
+    cmb_timeseries_terminate(&ts);
+    cmb_dataset_terminate(&ds);
+    fclose(fp);
+    return buf;
+}
+
+static void *fr_body(void *a)
+{
+    const int k = (int)(long)a;
+    for (int rep = 0; rep < 60; rep++) {
+        char *got = fr_queries(k);
+        if (strcmp(got, fr_solo[k]) != 0) {
+            fr_bad[k]++;
+        }
+        free(got);
+    }
+    return NULL;
+}
+
+static void run_free(void)
+{
+    (void)vx_choose_free(1, "free-run");
+    pthread_t th[FR_THREADS];
+    for (int k = 0; k < FR_THREADS; k++) {
+        fr_solo[k] = fr_queries(k);
+        fr_bad[k] = 0;
+    }
+    for (int k = 0; k < FR_THREADS; k++) {
+        pthread_create(&th[k], NULL, fr_body, (void *)(long)k);
+    }
+    for (int k = 0; k < FR_THREADS; k++) {
+        pthread_join(th[k], NULL);
+        if (fr_bad[k]) {
+            vx_violation("free:c18:threads:results-differ", "thread %d: %d of 60 rounds of queries on its own data gave "
+                         "results different from the same queries made alone", k, fr_bad[k]);
+        }
+        vx_outcome(vx_hash_bytes(5, fr_solo[k], strlen(fr_solo[k])));
+        free(fr_solo[k]);
+    }
+    vx_transitions(60 * FR_THREADS);
+    vx_state(1);
+}
+
 static void run_one(void)
 {
+    if (!strcmp(mode, "free")) {
+        run_free();
+        return;
+    }
     if (!strcmp(mode, "perm")) {
         /* every permutation of 1..maxlen */
         bool used[16] = { false };
